@@ -509,6 +509,42 @@ def preassigned_case(ids, name, which, res):
     res.outcomes["preassigned"] += 1
 
 
+def after_lanelet_removal_case(ids, name, res):
+    """'removing an obstacle that is in the scenario never fails': also when a lanelet the obstacle was assigned to has been removed from the
+    scenario in the meantime (only this clause is asserted for such scenarios: the removal works and no remaining lanelet lists the obstacle)"""
+    from commonroad.scenario.scenario import Scenario, ScenarioID
+    P = pool()
+    osp = P[name]
+    exp = expected_assignment(osp, ids)
+    used = sorted({i for t in exp for i in exp[t][1]})
+    for gone in used:
+        case = {"k": "after-lanelet-removal", "ids": list(ids), "obstacle": name, "removed_lanelet": gone}
+        res.evals += 1; res.transitions += 3; res.nontrivial += 1; res.states += 1
+        try:
+            sc = Scenario(0.1, ScenarioID())
+            for i in ids:
+                sc.add_objects(spec.mk_lanelet(netgeo.lanelet_spec(i)))
+            o = spec.mk_obstacle(osp)
+            sc.add_objects(o)
+            sc.assign_obstacles_to_lanelets()
+            sc.remove_lanelet(sc.lanelet_network.find_lanelet_by_id(gone))
+        except Exception as e:
+            res.guarded += 1      # building this scenario is not what is asserted here
+            res.outcomes[f"after-lanelet-removal:setup-raises:{type(e).__name__}"] += 1
+            continue
+        try:
+            sc.remove_obstacle(o)
+        except Exception as e:
+            res.violation(f"C07|after-lanelet-removal|{osp['role']}|remove-raises:{type(e).__name__}", f"{case}: {e!r}", case)
+            continue
+        if sc.obstacle_by_id(osp["id"]) is not None:
+            res.violation(f"C07|after-lanelet-removal|{osp['role']}|obstacle-still-contained", f"{case}", case)
+        left = {i: r for i, r in registries(sc).items() if osp["id"] in r[0] or any(osp["id"] in v for v in r[1].values())}
+        if left:
+            res.violation(f"C07|after-lanelet-removal|{osp['role']}|registry|stale-after-remove", f"{case}: {left}", case)
+        res.outcomes["after-lanelet-removal"] += 1
+
+
 def describe(tier):
     return {"networks": NETWORKS, "obstacle_pool": sorted(pool()), "obstacle_sets": "all of size 1 and 2", "routes": ["assign", "xml", "pb"],
             "history_universe": H_OBST, "history_depth": 4 if tier == "quick" else 7, "exhaustive": True}
@@ -533,6 +569,7 @@ def units(tier):
         u.append({"k": "history", "first": op, "depth": 4 if tier == "quick" else 7})
     u.append({"k": "two-scenarios"})
     u.append({"k": "preassigned"})
+    u.append({"k": "after-lanelet-removal"})
     return u
 
 
@@ -550,6 +587,11 @@ def run_unit(unit, tier):
         for ids in ([1, 6], [1, 5]):
             for a, b in ((["s-rect-straddle", "d-rect-traj"], ["s-rect-inside"]), (["d-rect-traj"], ["d-rect-turn", "s-rect-straddle"]), (["s-rect-straddle"], [])):
                 two_scenarios(ids, a, b, res)
+        res.sample(unit, 1)
+    elif unit["k"] == "after-lanelet-removal":
+        for ids in NETWORKS:
+            for name in sorted(pool()):
+                after_lanelet_removal_case(ids, name, res)
         res.sample(unit, 1)
     elif unit["k"] == "preassigned":
         for ids in NETWORKS:
@@ -581,6 +623,9 @@ def replay(case):
         return out
     if case.get("k") == "two-scenarios":
         two_scenarios(case["ids"], case["a"], case["b"], res)
+        return [(s, d) for s, d, _ in res.violations]
+    if case.get("k") == "after-lanelet-removal":
+        after_lanelet_removal_case(case["ids"], case["obstacle"], res)
         return [(s, d) for s, d, _ in res.violations]
     if case.get("k") == "preassigned":
         preassigned_case(case["ids"], case["obstacle"], case["given"], res)
